@@ -11,7 +11,7 @@ from harness.props import c06, c10
 
 OBLIGATIONS = [
     "PgmVerif.C11_apply_acyclic", "PgmVerif.C11_hc_acyclic", "PgmVerif.C11_best_is_max", "PgmVerif.C11_loop_stops_below_eps",
-    "PgmVerif.C11_hc_lists", "PgmVerif.C11_delta_exact", "PgmVerif.C11_hc_monotone", "PgmVerif.C11_hc_indegree",
+    "PgmVerif.C11_hc_lists", "PgmVerif.C11_delta_exact", "PgmVerif.C11_hc_monotone", "PgmVerif.C11_hc_indegree", "PgmVerif.C11_hc_budget",
     "PgmVerif.C11_defaults_tie", "PgmVerif.C11_tree_scale_invariant",
 ]
 PARTIAL = ["maximum-weight spanning tree optimality (networkx) is compared per case with the brute-force maximum of the Lean spec (<= 6 nodes); "
